@@ -33,8 +33,14 @@ SilMatches(ms, a) ==
     [] ms = "S2" -> Lbl[a].alertname \in {"X", "Y"}
     [] ms = "S3" -> Lbl[a].g = "2"
     [] ms = "S4" -> Lbl[a].sev # "crit" /\ Lbl[a].a = "y"
-\* route: one route, group_by [g]
-GroupKeyOfP(a, prefix) == prefix \o ":{g=\"" \o Lbl[a].g \o "\"}"
+\* route matcher library (the child routes of the scenarios select with one of these)
+Sel(s, a) ==
+  CASE s = "ALL"  -> TRUE                  \* alertname=~".+"
+    [] s = "G1"   -> Lbl[a].g = "1"
+    [] s = "G2"   -> Lbl[a].g = "2"
+    [] s = "CRIT" -> Lbl[a].sev = "crit"
+    [] s = "AX"   -> Lbl[a].a = "x"
+    [] s = "NOA"  -> Lbl[a].a = ""         \* a="" also holds for a missing label
 
 VARIABLES now,
           cfg,     \* [gw, gi, ri, sr (sequence of BOOLEAN), inhibit, windows (sequence)]
@@ -47,8 +53,6 @@ VARIABLES now,
           elig,    \* <<alert, integ>> -> instant since which it is continuously eligible, or -1
           chk      \* names of the property clauses violated by the last event
 
-GroupKeyOf(a) == GroupKeyOfP(a, cfg.gkp)
-
 ovars == <<now, cfg, ver, sil, last, brk, fl, cancd, elig, chk>>
 
 Put(f, k, v) == [x \in DOMAIN f \cup {k} |-> IF x = k THEN v ELSE f[x]]
@@ -57,11 +61,32 @@ Max2(a, b) == IF a > b THEN a ELSE b
 Min2(a, b) == IF a < b THEN a ELSE b
 SeqToSet(s) == {s[i] : i \in 1..Len(s)}
 
-\* integrations are identified by name ("webhook/0", "email/0": kind and index within the kind),
-\* which is stable across reloads that add or remove other integrations
-Integs == {cfg.integs[j].name : j \in 1..Len(cfg.integs)}
-SrOf(n) == (CHOOSE x \in SeqToSet(cfg.integs) : x.name = n).sr
-NamesOfIntegs(seq) == {seq[j].name : j \in 1..Len(seq)}
+(* Routing (C07 in small): the root route cfg.root and its child routes cfg.routes, each   *)
+(* [rk (route key), sel, cont, recv, gw, gi, ri, mute, active], all grouping by [g].  An   *)
+(* alert goes, in order, to every child that matches until one of them does not continue; *)
+(* to the root if no child matches.  One aggregation group per (route, value of g).       *)
+NRoutes == Len(cfg.routes)
+Rt(j) == IF j = 0 THEN cfg.root ELSE cfg.routes[j]
+Chosen(a) ==
+  LET m == {j \in 1..NRoutes : Sel(cfg.routes[j].sel, a)}
+      c == {j \in m : ~\E k \in m : k < j /\ ~cfg.routes[k].cont}
+  IN IF c = {} THEN {0} ELSE c
+GK(j, g) == Rt(j).rk \o ":{g=\"" \o g \o "\"}"
+GKeys(a) == {GK(j, Lbl[a].g) : j \in Chosen(a)}
+AllGK == {GK(j, g) : j \in 0..NRoutes, g \in {"1", "2"}}
+RouteOfGk(gk) == CHOOSE j \in 0..NRoutes : \E g \in {"1", "2"} : GK(j, g) = gk
+Opt(gk) == Rt(RouteOfGk(gk))
+Members(gk) == {a \in Alerts : gk \in GKeys(a)}
+\* the group key of an alert in a configuration without child routes
+GroupKeyOf(a) == GK(0, Lbl[a].g)
+
+\* integrations [recv, name, sr] are identified, within their receiver, by name ("webhook/0",
+\* "email/0": kind and index within the kind), which is stable across reloads that add or
+\* remove other integrations
+IntegsOfRecv(r) == {cfg.integs[j].name : j \in {x \in 1..Len(cfg.integs) : cfg.integs[x].recv = r}}
+IntegsOf(gk) == IntegsOfRecv(Opt(gk).recv)
+SrOfRecv(r, n) == (CHOOSE x \in SeqToSet(cfg.integs) : x.recv = r /\ x.name = n).sr
+SrOf(gk, n) == SrOfRecv(Opt(gk).recv, n)
 
 -----------------------------------------------------------------------------
 (* Reference definitions                                                   *)
@@ -78,33 +103,36 @@ InhibitedAt(a, t) ==
 SuppressedAt(a, t) == MutedAt(a, t) \/ InhibitedAt(a, t)
 
 \* receiver script: windows of kind rec / unrec / hang fail; kind slow only delays
-Failing(i, t) == \E w \in SeqToSet(cfg.windows) : w.integ = i /\ w.kind # "slow" /\ w.from <= t /\ t < w.to
-FailingDuring(i, t0, t1) == \E w \in SeqToSet(cfg.windows) : w.integ = i /\ w.kind # "slow" /\ w.from <= t1 /\ t0 < w.to
+Failing(r, i, t) == \E w \in SeqToSet(cfg.windows) : w.recv = r /\ w.integ = i /\ w.kind # "slow" /\ w.from <= t /\ t < w.to
+FailingDuring(r, i, t0, t1) == \E w \in SeqToSet(cfg.windows) : w.recv = r /\ w.integ = i /\ w.kind # "slow" /\ w.from <= t1 /\ t0 < w.to
 
 \* C15 gating: a flush is muted iff a mute interval contains its instant or, when active
 \* intervals are configured, none of them does.  The instant the stages use is the timer tick,
 \* which lags the actual flush by at most Timeout - group_interval when the previous flush
 \* overran: verdicts are demanded only where tick and flush fall on the same side of every edge.
 InAny(seq, t) == \E j \in 1..Len(seq) : seq[j].from <= t /\ t < seq[j].to
-TimeMuted(t) == InAny(cfg.mute, t) \/ (Len(cfg.active) > 0 /\ ~InAny(cfg.active, t))
-Edges == UNION {{cfg.mute[j].from, cfg.mute[j].to} : j \in 1..Len(cfg.mute)} \cup
-         UNION {{cfg.active[j].from, cfg.active[j].to} : j \in 1..Len(cfg.active)}
-Lag == Max2(cfg.gi, MinTimeout) + cfg.wait - cfg.gi + 1000
-EdgeNear(t) == \E b \in Edges : t - Lag <= b /\ b <= t
-MustMuted(t) == TimeMuted(t) /\ ~EdgeNear(t)
+TimeMutedR(o, t) == InAny(o.mute, t) \/ (Len(o.active) > 0 /\ ~InAny(o.active, t))
+TimeMuted(gk, t) == TimeMutedR(Opt(gk), t)
+EdgesR(o) == UNION {{o.mute[j].from, o.mute[j].to} : j \in 1..Len(o.mute)} \cup
+             UNION {{o.active[j].from, o.active[j].to} : j \in 1..Len(o.active)}
+LagR(o) == Max2(o.gi, MinTimeout) + cfg.wait - o.gi + 1000
+EdgeNear(gk, t) == \E b \in EdgesR(Opt(gk)) : t - LagR(Opt(gk)) <= b /\ b <= t
+AllEdgeStops == UNION {EdgesR(Rt(j)) \cup {b + LagR(Rt(j)) + 1 : b \in EdgesR(Rt(j))} : j \in 0..NRoutes}
 \* the names the API reports for a group flushed at t: all active intervals when none of them
 \* holds, otherwise the mute intervals that hold
-MutedByAt(t) == IF Len(cfg.active) > 0 /\ ~InAny(cfg.active, t)
-                  THEN {cfg.active[j].name : j \in 1..Len(cfg.active)}
-                  ELSE {cfg.mute[j].name : j \in {x \in 1..Len(cfg.mute) : cfg.mute[x].from <= t /\ t < cfg.mute[x].to}}
-MayMuted(t)  == TimeMuted(t) \/ EdgeNear(t)
+MutedByAt(gk, t) ==
+  LET o == Opt(gk)
+  IN IF Len(o.active) > 0 /\ ~InAny(o.active, t)
+       THEN {o.active[j].name : j \in 1..Len(o.active)}
+       ELSE {o.mute[j].name : j \in {x \in 1..Len(o.mute) : o.mute[x].from <= t /\ t < o.mute[x].to}}
+MayMuted(gk, t)  == TimeMuted(gk, t) \/ EdgeNear(gk, t)
 
 \* the delivery slack of C01: a hung flush may hold the run loop until its
 \* deadline, one maximal retry back-off, scheduling slack
 \* cfg.wait: the cluster wait of this instance (position x peer_timeout) at this moment;
 \* cfg.maxwait: the largest wait it can have (0 for a single instance)
-Timeout == Max2(cfg.gi, MinTimeout) + cfg.wait
-Bound == Max2(cfg.gw, cfg.gi) + (Max2(cfg.gi, MinTimeout) + cfg.maxwait - cfg.gi) + RetrySlack + SchedSlack + cfg.maxwait
+Timeout(gk) == Max2(Opt(gk).gi, MinTimeout) + cfg.wait
+Bound(gk) == LET o == Opt(gk) IN Max2(o.gw, o.gi) + (Max2(o.gi, MinTimeout) + cfg.maxwait - o.gi) + RetrySlack + SchedSlack + cfg.maxwait
 
 \* upper bounds of the retry gap after the k-th failed attempt:
 \* 1.5 x min(500 x 1.5^(k-1), 60 s), rounded up
@@ -117,36 +145,39 @@ NamesOf(as)    == {as[i].l : i \in 1..Len(as)}
 Entry(as, a)   == as[CHOOSE i \in 1..Len(as) : as[i].l = a]
 
 -----------------------------------------------------------------------------
-ObsInit == /\ now = 0 /\ cfg = [gw |-> 0, gi |-> 1, ri |-> 1, integs |-> <<[name |-> "webhook/0", sr |-> TRUE]>>, inhibit |-> FALSE, windows |-> << >>, wait |-> 0, maxwait |-> 0, mute |-> << >>, active |-> << >>, gkp |-> "{}"]
+RootOnly(gw, gi, ri) == [rk |-> "{}", sel |-> "ALL", cont |-> FALSE, recv |-> "r1", gw |-> gw, gi |-> gi, ri |-> ri, mute |-> << >>, active |-> << >>]
+\* the delivery targets of the alerts: <<alert, group key, integration of the group's receiver>>
+EligDom == UNION {UNION {{<<a, gk, i>> : i \in IntegsOf(gk)} : gk \in GKeys(a)} : a \in Alerts}
+ObsInit == /\ now = 0 /\ cfg = [root |-> RootOnly(0, 1, 1), routes |-> << >>, integs |-> <<[recv |-> "r1", name |-> "webhook/0", sr |-> TRUE]>>, inhibit |-> FALSE, windows |-> << >>, wait |-> 0, maxwait |-> 0]
            /\ ver = << >> /\ sil = << >> /\ last = << >> /\ brk = << >> /\ fl = << >> /\ cancd = [seen |-> {}, dead |-> << >>, deadgk |-> {}, refl |-> {}, ing |-> << >>, mby |-> << >>]
-           /\ elig = [p \in Alerts \X {"webhook/0"} |-> -1] /\ chk = {}
+           /\ elig = << >> /\ chk = {}
 
 \* eligibility clocks (C01), recomputed at every step for the new instant
-Eligible(a, i, t, v, s) ==
+Eligible(a, gk, i, t, v, s) ==
   /\ a \in DOMAIN v /\ t < v[a].end
   /\ ~\E j \in 1..Len(s) : SilActive(s[j], t) /\ SilMatches(s[j].ms, a)
   /\ ~(cfg.inhibit /\ Lbl[a].sev = "warn" /\
        \E x \in Alerts : Lbl[x].sev = "crit" /\ Lbl[x].g = Lbl[a].g /\ x \in DOMAIN v /\ t < v[x].end)
-  /\ ~Failing(i, t)
-  /\ ~MayMuted(t)
+  /\ ~Failing(Opt(gk).recv, i, t)
+  /\ ~MayMuted(gk, t)
 EligNext(t, v, s) ==
-  [p \in Alerts \X Integs |->
-     IF Eligible(p[1], p[2], t, v, s) THEN (IF p \in DOMAIN elig /\ elig[p] >= 0 THEN elig[p] ELSE t) ELSE -1]
+  [p \in EligDom |->
+     IF Eligible(p[1], p[2], p[3], t, v, s) THEN (IF p \in DOMAIN elig /\ elig[p] >= 0 THEN elig[p] ELSE t) ELSE -1]
 
 \* C01: an alert continuously eligible for longer than the bound is listed as
 \* firing by the latest successful notification of its group to that integration
 C01_Deadline ==
   \A p \in DOMAIN elig :
-     LET k == <<GroupKeyOf(p[1]), p[2]>>
+     LET k == <<p[2], p[3]>>
          \* the omission lasts since the alert became eligible or since the latest notification
          \* (which omits it) was delivered, whichever is later
          since == IF k \in DOMAIN last /\ last[k].t > elig[p] THEN last[k].t ELSE elig[p]
-     IN (elig[p] >= 0 /\ now - since > Bound) => (k \in DOMAIN last /\ p[1] \in last[k].firing)
+     IN (elig[p] >= 0 /\ now - since > Bound(p[2])) => (k \in DOMAIN last /\ p[1] \in last[k].firing)
 
 (* --- environment events ------------------------------------------------ *)
 Cfg(c) ==
   /\ cfg' = c /\ now' = 0 /\ ver' = << >> /\ sil' = << >> /\ last' = << >> /\ brk' = << >> /\ fl' = << >> /\ cancd' = [seen |-> {}, dead |-> << >>, deadgk |-> {}, refl |-> {}, ing |-> << >>, mby |-> << >>]
-  /\ elig' = [p \in Alerts \X NamesOfIntegs(c.integs) |-> -1] /\ chk' = {}
+  /\ elig' = << >> /\ chk' = {}
 
 Ingest(a, v) ==
   /\ ver' = Put(ver, a, v)
@@ -154,10 +185,9 @@ Ingest(a, v) ==
   \* refl: alerts updated while a flush of their group is being delivered (C05: they stay in the group)
   \* ing: per group key, the first hand-over since the last completed flush of that key (a group
   \* created by it waits group_wait)
-  /\ LET gk == GroupKeyOf(a)
-         c1 == IF gk \in DOMAIN cancd.ing THEN cancd ELSE [cancd EXCEPT !.ing = Put(@, gk, now)]
-     IN cancd' = IF \E x \in DOMAIN fl : fl[x].gk = gk /\ a \in NamesOf(fl[x].alerts)
-                   THEN [c1 EXCEPT !.refl = @ \cup {a}] ELSE c1
+  /\ cancd' = [cancd EXCEPT
+                 !.ing = [gk \in DOMAIN @ \cup GKeys(a) |-> IF gk \in DOMAIN @ THEN @[gk] ELSE now],
+                 !.refl = @ \cup {<<a, gk>> : gk \in {g \in GKeys(a) : \E x \in DOMAIN fl : fl[x].gk = g /\ a \in NamesOf(fl[x].alerts)}}]
   /\ chk' = {}
   /\ UNCHANGED <<now, cfg, sil, last, brk, fl>>
 
@@ -186,7 +216,7 @@ Advance(t) ==
   /\ elig' = EligNext(t, ver, sil)
   \* a moment without firing unsuppressed alert starts a new notification cycle
   /\ brk' = [k \in DOMAIN brk |->
-               brk[k] \/ ~\E a \in Alerts : GroupKeyOf(a) = k[1] /\ FiringAt(a, t) /\ ~SuppressedAt(a, t)]
+               brk[k] \/ ~\E a \in Alerts : k[1] \in GKeys(a) /\ FiringAt(a, t) /\ ~SuppressedAt(a, t)]
   /\ cancd' = [cancd EXCEPT !.deadgk = {}]
   /\ chk' = {}
   /\ UNCHANGED <<cfg, ver, sil, last, fl>>
@@ -202,9 +232,9 @@ FlushBegin(ag, gk, as, tick) ==
   LET names == NamesOf(as)
       bad ==
         \* C06: one group per notification, all of its known firing alerts, latest version (C14)
-        (IF \E a \in names : a \notin Alerts \/ GroupKeyOf(a) # gk THEN {"C06_foreign_alert"} ELSE {})
-        \cup (IF \E a \in Alerts : GroupKeyOf(a) = gk /\ FiringAt(a, now) /\ a \notin names THEN {"C06_alert_missing_from_group"} ELSE {})
-        \cup (IF \E a \in cancd.refl : GroupKeyOf(a) = gk /\ FiringAt(a, now) /\ a \notin names THEN {"C05_alert_refired_during_delivery_lost"} ELSE {})
+        (IF \E a \in names : a \notin Alerts \/ gk \notin GKeys(a) THEN {"C06_foreign_alert"} ELSE {})
+        \cup (IF \E a \in Alerts : gk \in GKeys(a) /\ FiringAt(a, now) /\ a \notin names THEN {"C06_alert_missing_from_group"} ELSE {})
+        \cup (IF \E p \in cancd.refl : p[2] = gk /\ FiringAt(p[1], now) /\ p[1] \notin names THEN {"C05_alert_refired_during_delivery_lost"} ELSE {})
         \cup (IF \E a \in names \cap DOMAIN ver : Entry(as, a).upd # ver[a].upd THEN {"C14_stale_version_in_group"} ELSE {})
         \* C05: status is true at this instant
         \cup (IF \E a \in names \cap DOMAIN ver : Entry(as, a).upd = ver[a].upd /\ Entry(as, a).status = "resolved" /\ ver[a].end > now
@@ -215,32 +245,35 @@ FlushBegin(ag, gk, as, tick) ==
         \* the time stages come after the inhibition stage: a flush whose alerts are all inhibited
         \* leaves the group's reported muted state as it was
         \cup (IF names # {} /\ (\A a \in names \cap Alerts : InhibitedAt(a, now)) /\ gk \in DOMAIN cancd.mby
-                   /\ cancd.mby[gk].known /\ cancd.mby[gk].cur # MutedByAt(now)
+                   /\ cancd.mby[gk].known /\ cancd.mby[gk].cur # MutedByAt(gk, now)
                 THEN {"DRIFT_muted_state_not_refreshed_when_all_alerts_inhibited"} ELSE {})
-        \cup (IF TimeMuted(tick) # TimeMuted(now) THEN {"DRIFT_flush_gated_at_timer_instant_not_at_flush_instant"} ELSE {})
+        \cup (IF TimeMuted(gk, tick) # TimeMuted(gk, now) THEN {"DRIFT_flush_gated_at_timer_instant_not_at_flush_instant"} ELSE {})
         \* C06: a (re-)created group waits group_wait before its first flush, unless it holds an
         \* alert that started longer ago than that
-        \cup (IF ag \notin cancd.seen /\ names # {} /\ gk \in DOMAIN cancd.ing /\ cancd.ing[gk] + cfg.gw > now
-                   /\ \A a \in names : Entry(as, a).start + cfg.gw >= now
+        \cup (IF ag \notin cancd.seen /\ names # {} /\ gk \in DOMAIN cancd.ing /\ cancd.ing[gk] + Opt(gk).gw > now
+                   /\ \A a \in names : Entry(as, a).start + Opt(gk).gw >= now
                 THEN {"C06_first_flush_before_group_wait"} ELSE {})
   IN IF Dead(ag) THEN /\ chk' = {} /\ cancd' = [cancd EXCEPT !.mby = Drop(@, {gk})]
                        /\ UNCHANGED <<now, cfg, ver, sil, last, brk, fl, elig>>
+     ELSE IF gk \notin AllGK
+       THEN /\ chk' = {"C06_group_of_unknown_route"}
+            /\ UNCHANGED <<now, cfg, ver, sil, last, brk, fl, cancd, elig>>
      ELSE
-     /\ fl' = Put(fl, ag, [gk |-> gk, t |-> now, to |-> Timeout, alerts |-> as, att |-> [i \in Integs |-> NoAtt],
-                            tmust |-> TimeMuted(tick) /\ TimeMuted(now), tmay |-> TimeMuted(tick) \/ TimeMuted(now),
+     /\ fl' = Put(fl, ag, [gk |-> gk, t |-> now, to |-> Timeout(gk), alerts |-> as, att |-> [i \in IntegsOf(gk) |-> NoAtt],
+                            tmust |-> TimeMuted(gk, tick) /\ TimeMuted(gk, now), tmay |-> TimeMuted(gk, tick) \/ TimeMuted(gk, now),
                             muted |-> {a \in names \cap Alerts : MutedAt(a, now)},
                             inhibited |-> {a \in names \cap Alerts : InhibitedAt(a, now)},
-                            prevF |-> [i \in Integs |-> IF <<gk, i>> \in DOMAIN last THEN last[<<gk, i>>].firing ELSE {}]])
-     /\ cancd' = [cancd EXCEPT !.seen = @ \cup {ag}, !.refl = {a \in @ : GroupKeyOf(a) # gk},
+                            prevF |-> [i \in IntegsOf(gk) |-> IF <<gk, i>> \in DOMAIN last THEN last[<<gk, i>>].firing ELSE {}]])
+     /\ cancd' = [cancd EXCEPT !.seen = @ \cup {ag}, !.refl = {p \in @ : p[2] # gk},
                                 \* ing: the first hand-over for the group key since its last flush began
                                 !.ing = Drop(@, {gk}),
                                 !.mby = LET allInh == names # {} /\ \A a \in names \cap Alerts : InhibitedAt(a, now)
                                             prev == IF gk \in DOMAIN @ THEN @[gk] ELSE [cur |-> {}, prev |-> {}, t |-> now, known |-> FALSE, stale |-> FALSE]
                                         IN \* the time stages run after the inhibition stage: they are skipped
                                            \* when that one leaves nothing (the marker keeps its old value)
-                                           IF allInh THEN Put(@, gk, [prev EXCEPT !.stale = prev.known /\ prev.cur # MutedByAt(tick)])
-                                           ELSE Put(@, gk, [cur |-> MutedByAt(tick), prev |-> prev.cur, t |-> now,
-                                                            known |-> MutedByAt(tick) = MutedByAt(now), stale |-> FALSE])]
+                                           IF allInh THEN Put(@, gk, [prev EXCEPT !.stale = prev.known /\ prev.cur # MutedByAt(gk, tick)])
+                                           ELSE Put(@, gk, [cur |-> MutedByAt(gk, tick), prev |-> prev.cur, t |-> now,
+                                                            known |-> MutedByAt(gk, tick) = MutedByAt(gk, now), stale |-> FALSE])]
      /\ brk' = [k \in DOMAIN brk |->
                   brk[k] \/ (k[1] = gk /\ ~\E a \in FiringOf(as) : ~SuppressedAt(a, now))]
      /\ chk' = bad
@@ -249,15 +282,15 @@ FlushBegin(ag, gk, as, tick) ==
 \* what an integration must be handed in this flush: the whole group minus
 \* suppressed alerts (minus resolved ones without send_resolved)
 Expected(f, i) ==
-  {a \in NamesOf(f.alerts) : a \notin f.muted \cup f.inhibited /\ (SrOf(i) \/ Entry(f.alerts, a).status = "firing")}
+  {a \in NamesOf(f.alerts) : a \notin f.muted \cup f.inhibited /\ (SrOf(f.gk, i) \/ Entry(f.alerts, a).status = "firing")}
 
 Justified(k, i, F, R, t) ==
   IF k \notin DOMAIN last THEN F # {}
   ELSE LET p == last[k]
        IN /\ (F = {} => p.firing # {})
           /\ \/ ~(F \subseteq p.firing)
-             \/ (SrOf(i) /\ ~(R \subseteq p.resolved))
-             \/ t - p.t > cfg.ri
+             \/ (SrOf(k[1], i) /\ ~(R \subseteq p.resolved))
+             \/ t - p.t > Opt(k[1]).ri
              \/ brk[k]
 
 \* start = instant at which the delivery attempt began (it ends, and is recorded, at `now`)
@@ -275,7 +308,7 @@ Attempt(ag, gk, name, as, outcome, deadline, start) ==
         \* payload: C02, C03, C05, C06
         (IF NamesOf(as) \cap f.muted # {} THEN {"C02_silenced_alert_notified"} ELSE {})
         \cup (IF NamesOf(as) \cap f.inhibited # {} THEN {"C03_inhibited_alert_notified"} ELSE {})
-        \cup (IF ~SrOf(i) /\ R # {} THEN {"C05_resolved_sent_without_send_resolved"} ELSE {})
+        \cup (IF ~SrOf(gk, i) /\ R # {} THEN {"C05_resolved_sent_without_send_resolved"} ELSE {})
         \cup (IF f.tmust THEN {"C15_notification_during_mute_or_outside_active_interval"} ELSE {})
         \cup (IF gk # f.gk \/ \E a \in NamesOf(as) : a \notin NamesOf(f.alerts) \/ Entry(as, a).status # Entry(f.alerts, a).status
                 THEN {"C06_payload_not_from_flush"} ELSE {})
@@ -293,7 +326,7 @@ Attempt(ag, gk, name, as, outcome, deadline, start) ==
        THEN \* a stopped dispatcher's groups must not deliver anything after the stop
             /\ chk' = IF outcome = "ok" /\ now > cancd.dead[ag] THEN {"C04_notification_from_stopped_dispatcher"} ELSE {}
             /\ UNCHANGED <<now, cfg, ver, sil, last, brk, fl, cancd, elig>>
-     ELSE IF i \notin Integs
+     ELSE IF gk \notin AllGK \/ i \notin IntegsOf(gk)
        THEN /\ chk' = {"C06_notification_to_unconfigured_integration"}
             /\ UNCHANGED <<now, cfg, ver, sil, last, brk, fl, cancd, elig>>
      ELSE
@@ -316,15 +349,15 @@ NflogLog(gk, name, firing, resolved) ==
       ag == CHOOSE x \in live : TRUE
       f == fl[ag]
       at == f.att[i]
-      skip == ~SrOf(i) /\ firing = {}
-      bad == IF i \notin Integs
+      skip == ~SrOf(gk, i) /\ firing = {}
+      bad == IF gk \notin AllGK \/ i \notin IntegsOf(gk)
                THEN \* a flush the reload found in flight finishes its bookkeeping for the old integrations
                     (IF gk \in cancd.deadgk THEN {} ELSE {"C06_notification_to_unconfigured_integration"})
              ELSE IF live = {} THEN (IF gk \in cancd.deadgk THEN {} ELSE {"C20_log_outside_flush"})
              ELSE (IF ~at.done /\ ~skip THEN {"C20_recorded_without_success"} ELSE {})
                   \cup (IF at.logged THEN {"C20_recorded_twice"} ELSE {})
                   \cup (IF \E a \in firing \cup resolved : a \notin NamesOf(f.alerts) \/ a \in f.muted \cup f.inhibited THEN {"C20_log_lists_unsent_alert"} ELSE {})
-  IN /\ IF live # {} /\ i \in Integs THEN fl' = [fl EXCEPT ![ag].att[i].logged = TRUE] ELSE fl' = fl
+  IN /\ IF live # {} /\ gk \in AllGK /\ i \in IntegsOf(gk) /\ i \in DOMAIN f.att THEN fl' = [fl EXCEPT ![ag].att[i].logged = TRUE] ELSE fl' = fl
      /\ chk' = bad
      /\ UNCHANGED <<now, cfg, ver, sil, last, brk, cancd, elig>>
 
@@ -333,38 +366,38 @@ Failed(at) == at.n > 0 /\ ~at.done
 FlushOk(ag) ==
   /\ chk' = IF Dead(ag) THEN {}
             ELSE IF ag \notin DOMAIN fl THEN {"C20_ok_outside_flush"}
-            ELSE IF \E i \in Integs : Failed(fl[ag].att[i]) THEN {"C20_failure_not_reported"} ELSE {}
+            ELSE IF \E i \in DOMAIN fl[ag].att : Failed(fl[ag].att[i]) THEN {"C20_failure_not_reported"} ELSE {}
   /\ UNCHANGED <<now, cfg, ver, sil, last, brk, fl, cancd, elig>>
 
 \* end of a flush: what was owed has been delivered, retries went on until the deadline
 FlushDone(ag) ==
   LET f == fl[ag]
-      accepting(i) == ~FailingDuring(i, f.t, now) /\ ~f.tmay
+      accepting(i) == ~FailingDuring(Opt(f.gk).recv, i, f.t, now) /\ ~f.tmay
       exp(i) == Expected(f, i)
       newFiring(i) == {a \in exp(i) : Entry(f.alerts, a).status = "firing"} \ f.prevF[i]
-      entryExpired(i) == <<f.gk, i>> \in DOMAIN last /\ f.t - last[<<f.gk, i>>].t >= 2 * cfg.ri
+      entryExpired(i) == <<f.gk, i>> \in DOMAIN last /\ f.t - last[<<f.gk, i>>].t >= 2 * Opt(f.gk).ri
       \* what this instance knows, at the end of the flush, to have been delivered last (its own
       \* delivery of this flush, or a peer's log entry merged meanwhile)
       knownFiring(i) == IF <<f.gk, i>> \in DOMAIN last THEN last[<<f.gk, i>>].firing ELSE {}
       knownResolved(i) == IF <<f.gk, i>> \in DOMAIN last THEN last[<<f.gk, i>>].resolved ELSE {}
-      newResolved(i) == IF SrOf(i) THEN {a \in exp(i) : Entry(f.alerts, a).status = "resolved"} \cap f.prevF[i] ELSE {}
+      newResolved(i) == IF SrOf(f.gk, i) THEN {a \in exp(i) : Entry(f.alerts, a).status = "resolved"} \cap f.prevF[i] ELSE {}
       bad ==
         IF ag \notin DOMAIN fl THEN {"C06_done_outside_flush"}
         ELSE
-        (IF \E i \in Integs : f.att[i].lastOutcome = "rec" /\ ~f.att[i].done /\ now < f.t + f.to
+        (IF \E i \in DOMAIN f.att : f.att[i].lastOutcome = "rec" /\ ~f.att[i].done /\ now < f.t + f.to
            THEN {"C20_gave_up_before_deadline"} ELSE {})
         \* one integration's failure never prevents the others from sending and recording
-        \cup (IF \E i \in Integs : f.att[i].done /\ ~f.att[i].logged THEN {"C20_success_not_recorded"} ELSE {})
+        \cup (IF \E i \in DOMAIN f.att : f.att[i].done /\ ~f.att[i].logged THEN {"C20_success_not_recorded"} ELSE {})
         \* C01: a firing alert the receiver has not been told about is delivered by this flush
         \* (in a cluster a peer may have delivered it meanwhile: then this instance's log says so)
-        \cup (IF \E i \in Integs : accepting(i) /\ newFiring(i) # {} /\ ~(newFiring(i) \subseteq knownFiring(i))
+        \cup (IF \E i \in DOMAIN f.att : accepting(i) /\ newFiring(i) # {} /\ ~(newFiring(i) \subseteq knownFiring(i))
                 THEN {"C01_firing_alert_not_notified_by_flush"} ELSE {})
         \* C05: a resolved alert the receiver was told is firing is reported resolved by this flush
         \* (F8: the notification-log entry expires 2 x repeat_interval after the last
         \* notification; a resolution first seen later than that is forgotten - listed finding)
-        \cup (IF \E i \in Integs : accepting(i) /\ newResolved(i) # {} /\ ~entryExpired(i) /\ ~(newResolved(i) \subseteq knownResolved(i))
+        \cup (IF \E i \in DOMAIN f.att : accepting(i) /\ newResolved(i) # {} /\ ~entryExpired(i) /\ ~(newResolved(i) \subseteq knownResolved(i))
                 THEN {"C05_resolution_not_notified_by_flush"} ELSE {})
-        \cup (IF \E i \in Integs : accepting(i) /\ newResolved(i) # {} /\ entryExpired(i) /\ ~(newResolved(i) \subseteq knownResolved(i))
+        \cup (IF \E i \in DOMAIN f.att : accepting(i) /\ newResolved(i) # {} /\ entryExpired(i) /\ ~(newResolved(i) \subseteq knownResolved(i))
                 THEN {"C05_F8_resolution_forgotten_after_log_entry_expired"} ELSE {})
   IN IF Dead(ag) THEN /\ chk' = {} /\ UNCHANGED <<now, cfg, ver, sil, last, brk, fl, cancd, elig>>
      ELSE /\ fl' = IF ag \in DOMAIN fl THEN Drop(fl, {ag}) ELSE fl
@@ -391,12 +424,12 @@ Reloading(integs) ==
                            IF x \in DOMAIN cancd.dead THEN cancd.dead[x] ELSE now],
                deadgk |-> cancd.deadgk \cup {fl[x].gk : x \in DOMAIN fl}, refl |-> cancd.refl,
                \* the new dispatcher creates its groups from the provider's alerts right now
-               ing |-> [g \in DOMAIN cancd.ing \cup {GroupKeyOf(a) : a \in DOMAIN ver} |->
+               ing |-> [g \in DOMAIN cancd.ing \cup UNION {GKeys(a) : a \in DOMAIN ver} |->
                           IF g \in DOMAIN cancd.ing THEN cancd.ing[g] ELSE now],
                mby |-> cancd.mby]
   /\ fl' = << >>
   /\ cfg' = [cfg EXCEPT !.integs = integs]
-  /\ elig' = [p \in Alerts \X NamesOfIntegs(integs) |-> IF p \in DOMAIN elig THEN elig[p] ELSE -1]
+  /\ elig' = [p \in {q \in DOMAIN elig : \E x \in SeqToSet(integs) : x.recv = Opt(q[2]).recv /\ x.name = q[3]} |-> elig[p]]
   /\ chk' = {}
   /\ UNCHANGED <<now, ver, sil, last, brk>>
 
@@ -433,21 +466,30 @@ ApiAlerts(list) ==
            THEN {"C02_api_state_differs"} ELSE {})
         \cup (IF \E a \in DOMAIN ver : FiringAt(a, now) /\ a \notin names THEN {"C13_firing_alert_not_listed"} ELSE {})
         \cup (IF \E a \in names \cap DOMAIN ver : ver[a].end < now THEN {"C13_resolved_alert_listed"} ELSE {})
+        \* C07: the receivers the API reports for an alert are those of the routes chosen for it
+        \cup (IF \E a \in names \cap Alerts : SeqToSet(E(a).recvs) # {Opt(gk).recv : gk \in GKeys(a)}
+           THEN {"C07_api_receivers_differ_from_routing"} ELSE {})
   IN /\ chk' = bad
      /\ UNCHANGED <<now, cfg, ver, sil, last, brk, fl, cancd, elig>>
 
 \* GET /api/v2/alerts/groups at a quiescent instant: exactly the partition of the current
 \* alerts by group_by value (C06)
 ApiGroups(list) ==
-  LET bad ==
-        (IF \E j \in 1..Len(list) : \E a \in SeqToSet(list[j].alerts) : a \in Alerts /\ Lbl[a].g # list[j].g
+  LET \* the group keys an API entry [recv, g] can stand for (the API does not tell the route)
+      Cand(e) == {gk \in AllGK : Opt(gk).recv = e.recv /\ gk = GK(RouteOfGk(gk), e.g)}
+      bad ==
+        (IF \E j \in 1..Len(list) : \E a \in SeqToSet(list[j].alerts) :
+              a \in Alerts /\ (Lbl[a].g # list[j].g \/ ~\E gk \in GKeys(a) : Opt(gk).recv = list[j].recv)
            THEN {"C06_api_group_holds_foreign_alert"} ELSE {})
-        \cup (IF \E i, j \in 1..Len(list) : i # j /\ list[i].g = list[j].g THEN {"C06_api_shows_two_groups_for_one_key"} ELSE {})
-        \cup (IF \E a \in DOMAIN ver : FiringAt(a, now) /\ ~\E j \in 1..Len(list) : a \in SeqToSet(list[j].alerts)
+        \cup (IF \E j \in 1..Len(list) :
+                   Cardinality({i \in 1..Len(list) : list[i].g = list[j].g /\ list[i].recv = list[j].recv}) > Cardinality(Cand(list[j]))
+                THEN {"C06_api_shows_two_groups_for_one_key"} ELSE {})
+        \cup (IF \E a \in DOMAIN ver : FiringAt(a, now) /\ \E gk \in GKeys(a) :
+                   ~\E j \in 1..Len(list) : list[j].recv = Opt(gk).recv /\ list[j].g = Lbl[a].g /\ a \in SeqToSet(list[j].alerts)
            THEN {"C06_api_groups_miss_firing_alert"} ELSE {})
         \* C15: the group is reported as muted, with the interval names, as of its last flush
-        \cup (IF \E j \in 1..Len(list) :
-                   LET gk == cfg.gkp \o ":{g=\"" \o list[j].g \o "\"}" IN
+        \cup (IF \E j \in 1..Len(list) : Cardinality(Cand(list[j])) = 1 /\
+                   LET gk == CHOOSE x \in Cand(list[j]) : TRUE IN
                    /\ gk \in DOMAIN cancd.mby /\ cancd.mby[gk].known /\ ~cancd.mby[gk].stale
                    /\ gk \notin DOMAIN cancd.ing
                    /\ SeqToSet(list[j].mutedby) # cancd.mby[gk].cur
